@@ -1,5 +1,5 @@
 CONSTANTS Budget = 6 Sim = TRUE Start = "FILE"
-  Masked = {"none_todo_operand", "p_neg", "p_as_var"}
+  Masked = {"none_todo_operand", "p_neg"}
 SPECIFICATION Spec
 INVARIANTS Balanced
 CHECK_DEADLOCK FALSE
